@@ -48,6 +48,13 @@ def c07_work(item, ctx):
         res.sample({"bfs": "pool %d, depth %d" % (pool, depth), "distinct_states": res.counters["bfs_states"],
                     "truncated": bool(res.counters["bfs_truncated"]), "operations": "create(s,c,callback-behaviour) s in 0..3 c in 0..2, delete(id) id in -1..pool, tick+process"})
         res.extra["bfs_pool%d" % pool] = {"depth": depth, "states": res.counters["bfs_states"], "complete_to_depth": not res.counters["bfs_truncated"]}
+    elif kind == "deferred":
+        # the quantifier lists tick and process as separate operations: sequences in which processing does not follow every tick
+        # (rules of A.2 for that regime: never before due, once per expiry, in the first processing pass after the due tick)
+        _, idx, nseq, maxops = item
+        run_engine(res, exe, ["c08plain", F.seed_for(ctx["seed"], "C07deferred", idx) & 0xFFFFFFFF, nseq, maxops], "c07")
+        for i in range(0, nseq, 50):
+            res.nt("deferred", idx, i)
     elif kind == "rand":
         _, idx, nseq, nops = item
         run_engine(res, exe, ["c07rand", F.seed_for(ctx["seed"], "C07", idx) & 0xFFFFFFFF, nseq, nops], "c07")
@@ -129,6 +136,7 @@ def for_property(prop):
                 items.append(("bfs", 4, 5, 300000))
             items += [("rand", i, 300 if q else 20000, 1000) for i in range(12 if q else 64)]
             items += [("conv", i, 20 if q else 300) for i in range(4 if q else 16)]
+            items += [("deferred", i, 3000 if q else 60000, 14) for i in range(4 if q else 16)]
             return items
         m.plan = plan
 
